@@ -173,9 +173,51 @@ pub struct RunOut {
 }
 
 pub fn run_solstat(cwd: &str, args: &[&str]) -> Result<RunOut, String> {
-    let out = Command::new(solstat_bin()).args(args).current_dir(cwd).stdin(Stdio::null()).output().map_err(|e| format!("cannot run {}: {}", solstat_bin(), e))?;
+    use std::io::Read;
+    let mut child = Command::new(solstat_bin())
+        .args(args)
+        .current_dir(cwd)
+        .stdin(Stdio::null())
+        .stdout(Stdio::null())
+        .stderr(Stdio::piped())
+        .spawn()
+        .map_err(|e| format!("cannot run {}: {}", solstat_bin(), e))?;
+    let mut err_pipe = child.stderr.take();
+    let reader = std::thread::spawn(move || {
+        let mut buf = vec![];
+        if let Some(p) = err_pipe.as_mut() {
+            let _ = p.read_to_end(&mut buf);
+        }
+        buf
+    });
+    // a run normally needs milliseconds; one that has used 120 s of CPU time (not wall clock) is ended and the
+    // case is inconclusive for the calling check (termination itself is C04's subject)
+    let pid = child.id();
+    let mut polls = 0u64;
+    let status = loop {
+        match child.try_wait() {
+            Ok(Some(st)) => break st,
+            Ok(None) => {}
+            Err(e) => return Err(format!("waiting for solstat failed: {}", e)),
+        }
+        polls += 1;
+        std::thread::sleep(std::time::Duration::from_millis(if polls < 200 { 1 } else { 20 }));
+        if polls % 100 == 0 {
+            let ticks = std::fs::read_to_string(format!("/proc/{}/stat", pid))
+                .ok()
+                .and_then(|st| st.rfind(')').map(|c| st[c + 1..].split_whitespace().map(|x| x.to_string()).collect::<Vec<_>>()))
+                .map(|f| f.get(11).and_then(|x| x.parse::<u64>().ok()).unwrap_or(0) + f.get(12).and_then(|x| x.parse::<u64>().ok()).unwrap_or(0))
+                .unwrap_or(0);
+            if ticks > 120 * 100 {
+                let _ = child.kill();
+                let _ = child.wait();
+                return Err("a solstat run was ended after 120 s of CPU time without finishing".to_string());
+            }
+        }
+    };
+    let stderr = reader.join().unwrap_or_default();
     let report = std::fs::read(format!("{}/solstat_report.md", cwd)).ok();
-    Ok(RunOut { code: out.status.code(), stderr: String::from_utf8_lossy(&out.stderr).to_string(), report })
+    Ok(RunOut { code: status.code(), stderr: String::from_utf8_lossy(&stderr).to_string(), report })
 }
 
 pub fn toml_text(path: Option<&str>, o: &[String], v: &[String], q: &[String]) -> String {
